@@ -3,7 +3,7 @@
    harness on the unfixed Go code, justify the fix: commits (see notes/C15.md, notes/C10.md).
 
    F11 (C15): OnFiltered / OnTimeout are stored and never invoked. *)
-From Coq Require Import List Arith Bool.
+From Coq Require Import List Arith Bool ZArith.
 From TC.Model Require Import Pub.
 Import ListNotations.
 
@@ -42,7 +42,7 @@ End PinnedF11.
 (* Subscribe(0, WithFilter(even), OnFiltered(cb)); Publish(1): the pair is filtered, the callback is
    set, and it has not been invoked (C15_callbacks fails). *)
 Definition f11_filtered_history : list (label nat) :=
-  [Subscribe 0 Nat.even 100 true true; PubBegin 1; Visit 0 0; PubEnd 0].
+  [Subscribe 0 Nat.even 100%Z true true; PubBegin 1; Visit 0 0; PubEnd 0].
 
 Theorem f11_onfiltered_refuted :
   exists (ls : list (label nat)) (st : state nat) (s p m : nat),
@@ -58,7 +58,7 @@ Qed.
 (* Subscribe(0, WithTimeout(2 ticks), OnTimeout(cb)); Publish(1); nobody receives; two ticks; the
    delivery times out: the pair is timed out, the callback is set, and it has not been invoked. *)
 Definition f11_timeout_history : list (label nat) :=
-  [Subscribe 0 (fun _ => true) 2 true true; PubBegin 1; Visit 0 0; PubEnd 0; Enter 0 0; Tick; Tick; Timeout 0 0].
+  [Subscribe 0 (fun _ => true) 2%Z true true; PubBegin 1; Visit 0 0; PubEnd 0; Enter 0 0; Tick; Tick; Timeout 0 0].
 
 Theorem f11_ontimeout_refuted :
   exists (ls : list (label nat)) (st : state nat) (s p m : nat),
@@ -127,7 +127,7 @@ End PinnedF16.
 (* Subscribe(0); Publish(1); Close(): the delivery goroutine is parked in its select (nobody receives),
    the channel is closed under it, the send panics ("send on closed channel"). *)
 Definition f16_close_pending_history : list (@plabel nat) :=
-  [PL (Subscribe 0 (fun _ => true) 100 false false); PL (PubBegin 1); PL (Visit 0 0); PL (PubEnd 0);
+  [PL (Subscribe 0 (fun _ => true) 100%Z false false); PL (PubBegin 1); PL (Visit 0 0); PL (PubEnd 0);
    PL (Enter 0 0); CLoad 0; CClose 0; PL (Deliver 0 0)].
 
 Theorem close_pending_refuted :
@@ -142,7 +142,7 @@ Qed.
 (* two closers (two s.Close(), or s.Close() and p.Close()) both find s in the map before either deletes
    it; both close the channel: "close of closed channel". *)
 Definition f16_double_close_history : list (@plabel nat) :=
-  [PL (Subscribe 1 (fun _ => true) 100 false false); CLoad 0; CLoad 0; CClose 0; CClose 0].
+  [PL (Subscribe 1 (fun _ => true) 100%Z false false); CLoad 0; CLoad 0; CClose 0; CClose 0].
 
 Theorem double_close_refuted :
   exists (ls : list (@plabel nat)) (sl : state nat * list nat),
